@@ -53,4 +53,115 @@ theorem mulhi_lt (v nm : Nat) (hv : v < 2 ^ 64) : mulhi v nm < nm ∨ nm = 0 := 
     rw [Nat.div_lt_iff_lt_mul (by decide)]
     rw [Nat.mul_comm nm]; exact this
 
+/-! ### bit stream -/
+
+theorem readUnaryAux_replicate (k q : Nat) (r : List Bool) :
+    readUnaryAux q (List.replicate k true ++ false :: r) = some (q + k, r) := by
+  induction k generalizing q with
+  | zero => simp [readUnaryAux]
+  | succ k ih =>
+    rw [List.replicate_succ, List.cons_append, readUnaryAux, ih]
+    congr 2; omega
+
+theorem readUnary_replicate (k : Nat) (r : List Bool) :
+    readUnary (List.replicate k true ++ false :: r) = some (k, r) := by
+  unfold readUnary; rw [readUnaryAux_replicate]; simp
+
+theorem readBitsAux_beBits (p acc x : Nat) (r : List Bool) :
+    readBitsAux p acc (beBits p x ++ r) = some (acc * 2 ^ p + x % 2 ^ p, r) := by
+  induction p generalizing acc with
+  | zero => simp [readBitsAux, beBits, Nat.mod_one]
+  | succ p ih =>
+    rw [beBits, List.cons_append, readBitsAux, ih]
+    congr 2
+    have h2 : x % 2 ^ (p + 1) = (x / 2 ^ p % 2) * 2 ^ p + x % 2 ^ p := by
+      rw [Nat.pow_succ, Nat.mod_mul, Nat.add_comm, Nat.mul_comm]
+    rw [h2]
+    rcases Nat.mod_two_eq_zero_or_one (x / 2 ^ p) with h | h <;> simp [h, Nat.pow_succ] <;> ring
+
+theorem readBits_beBits (p x : Nat) (r : List Bool) :
+    readBits p (beBits p x ++ r) = some (x % 2 ^ p, r) := by
+  unfold readBits; rw [readBitsAux_beBits]; simp
+
+/-- one Golomb-Rice value decodes to itself, whatever follows -/
+theorem readFull_golombEncode (P x : Nat) (hx : x < 2 ^ 64) (r : List Bool) :
+    readFull P (golombEncode P x ++ r) = some (x, r) := by
+  unfold readFull golombEncode
+  rw [List.append_assoc, List.cons_append, readUnary_replicate]
+  simp only [readBits_beBits]
+  have hd : x / 2 ^ P * 2 ^ P + x % 2 ^ P = x := by
+    rw [Nat.mul_comm]; exact Nat.div_add_mod x (2 ^ P)
+  have hle : x / 2 ^ P * 2 ^ P ≤ x := by omega
+  have h1 : x / 2 ^ P * 2 ^ P % 2 ^ 64 = x / 2 ^ P * 2 ^ P := Nat.mod_eq_of_lt (by omega)
+  rw [h1, Nat.mod_mod, hd, Nat.mod_eq_of_lt hx]
+
+/-- ascending chain starting at `last` -/
+def Asc : Nat → List Nat → Prop
+  | _, [] => True
+  | last, v :: vs => last ≤ v ∧ Asc v vs
+
+theorem Asc.ge {last : Nat} {vs : List Nat} (h : Asc last vs) : ∀ x ∈ vs, last ≤ x := by
+  induction vs generalizing last with
+  | nil => intro x hx; cases hx
+  | cons v vs ih =>
+    intro x hx
+    rcases List.mem_cons.mp hx with rfl | hx
+    · exact h.1
+    · exact Nat.le_trans h.1 (ih h.2 x hx)
+
+theorem asc_of_pairwise {l : List Nat} (h : l.Pairwise (fun a b => a ≤ b)) (last : Nat)
+    (hl : ∀ x ∈ l, last ≤ x) : Asc last l := by
+  induction l generalizing last with
+  | nil => trivial
+  | cons v vs ih =>
+    rw [List.pairwise_cons] at h
+    exact ⟨hl v (List.mem_cons_self), ih h.2 v h.1⟩
+
+theorem encodeValues_cons (P last v : Nat) (vs : List Nat) (hlv : last ≤ v) (hv : v < 2 ^ 64) :
+    encodeValues P last (v :: vs) = golombEncode P (v - last) ++ encodeValues P v vs := by
+  have h1 : (v + 2 ^ 64 - last) % 2 ^ 64 = v - last := by
+    have : v + 2 ^ 64 - last = (v - last) + 2 ^ 64 := by omega
+    rw [this, Nat.add_mod_right, Nat.mod_eq_of_lt (by omega)]
+  have hm : (v - last) % 2 ^ P ≤ v - last := Nat.mod_le _ _
+  have h2 : ((v - last) + 2 ^ 64 - (v - last) % 2 ^ P) % 2 ^ 64 = (v - last) - (v - last) % 2 ^ P := by
+    have : (v - last) + 2 ^ 64 - (v - last) % 2 ^ P = ((v - last) - (v - last) % 2 ^ P) + 2 ^ 64 := by omega
+    rw [this, Nat.add_mod_right, Nat.mod_eq_of_lt (by omega)]
+  have h3 : ((v - last) - (v - last) % 2 ^ P) / 2 ^ P = (v - last) / 2 ^ P := by
+    have hd := Nat.div_add_mod (v - last) (2 ^ P)
+    have : (v - last) - (v - last) % 2 ^ P = 2 ^ P * ((v - last) / 2 ^ P) := by omega
+    rw [this, Nat.mul_div_cancel_left _ (Nat.pow_pos (by decide))]
+  rw [encodeValues]
+  simp only [h1, h2, h3]
+  simp [golombEncode]
+
+/-- the write loop of the builder is BIP158's `golomb_encode` of the successive differences -/
+theorem encodeValues_eq (P last : Nat) (vs : List Nat) (h : Asc last vs) (hb : ∀ x ∈ vs, x < 2 ^ 64) :
+    encodeValues P last vs = golombEncodeAll P (deltas last vs) := by
+  induction vs generalizing last with
+  | nil => simp [encodeValues, golombEncodeAll, deltas]
+  | cons v vs ih =>
+    rw [encodeValues_cons P last v vs h.1 (hb v (List.mem_cons_self)),
+      ih v h.2 (fun x hx => hb x (List.mem_cons_of_mem _ hx))]
+    simp [golombEncodeAll, deltas]
+
+/-- reading `k` values back (no running sum) -/
+def readN (p : Nat) : Nat → List Bool → Option (List Nat × List Bool)
+  | 0, bits => some ([], bits)
+  | k+1, bits => match readFull p bits with
+    | none => none
+    | some (v, rest) => match readN p k rest with
+      | none => none
+      | some (vs, rest') => some (v :: vs, rest')
+
+theorem readN_golombEncodeAll (P : Nat) (ds : List Nat) (hb : ∀ x ∈ ds, x < 2 ^ 64) (pad : List Bool) :
+    readN P ds.length (golombEncodeAll P ds ++ pad) = some (ds, pad) := by
+  induction ds with
+  | nil => simp [readN, golombEncodeAll]
+  | cons d ds ih =>
+    have : golombEncodeAll P (d :: ds) ++ pad = golombEncode P d ++ (golombEncodeAll P ds ++ pad) := by
+      simp [golombEncodeAll]
+    rw [this, List.length_cons, readN, readFull_golombEncode P d (hb d (List.mem_cons_self))]
+    simp only []
+    rw [ih (fun x hx => hb x (List.mem_cons_of_mem _ hx))]
+
 end BV.C20.Lemmas
